@@ -114,6 +114,12 @@ def install_urllib_models(it):
 
         def open_(req, timeout=None):
             log(it_, "open", req, timeout, handlers)
+            # the server / the network may fail any attempt: an HTTP error status, a connection error, a time-out
+            n = len([c for c in it_.st.ghost["calls"] if c[0] == "open"])
+            if it_.branch(z3.Bool(f"attempt_{n}_fails")):
+                import urllib.error, socket
+                kind = urllib.error.HTTPError if it_.branch(z3.Bool(f"attempt_{n}_fails_with_http_status")) else (urllib.error.URLError if it_.branch(z3.Bool(f"attempt_{n}_fails_with_url_error")) else socket.timeout)
+                raise C.Raised(ExcVal(kind, ("request failed",)))
             return Marker("response", read=lambda: SVal(bytes, it_.fresh("http_response", "V"), {"eq": "term"}))
         return Marker("opener", open=open_)
 
@@ -205,7 +211,9 @@ CONTRACTS = [
                       ("headers", "spec.client.headers_ok(spec.client.calls(ghost, 'Request')[0][1]['headers'], self.useragent)"),
                       ("cookie-jar-of-this-client-iff-persist", "spec.client.jar_rule(spec.client.calls(ghost, 'open')[0][3], self.persist_cookies, self.cookiejar)"),
                       ("timeout", "spec.client.calls(ghost, 'open')[0][2] == (10.0 if timeout in (None, False) else timeout)")],
-             notes="USE_REQUESTS is False in this sandbox (A-NOREQ): the urllib branch is the verified path", props=["C14"], symbolic_only=True),
+             raises=[(OSError, "True", "may")],        # HTTPError / URLError / socket.timeout from the one attempt propagate
+             on_raise=[("a-failed-request-is-not-sent-again", "len(spec.client.calls(ghost, 'Request')) <= 1 and len(spec.client.calls(ghost, 'open')) <= 1")],
+             notes="USE_REQUESTS is False in this sandbox (A-NOREQ): the urllib branch is the verified path; every attempt may fail (HTTP status, URL error, time-out): the request - credentials included - goes out exactly once either way", props=["C14"], symbolic_only=True),
     # 2 ------------------------------------------------------------------ http_headers
     Contract("ofxtools.Client:OFXClient.http_headers",
              args=[ClientArg()], call=lambda it, fn, a: it.getattr(a[0], "http_headers"),
